@@ -81,6 +81,10 @@ def check(F, rep, tier):
             fns = parsers.module_fns(F, fs[0], module)
             rep.fn_seen(*fns)
             parsers.constant_fallbacks(F, rep, "R07.4", fns)
+    # ---- R07.3b no truncating cast anywhere on the conversion paths ----------------------------------------------------
+    parsers.narrowing_casts(F, rep, "R07.3b", ("crate::version::pep440::", "crate::version::semver::", "crate::version::version_object::", "crate::cli::render::", "crate::version::zerv::components::", "crate::version::zerv::vars::"), "format conversion")
+    # which identifiers are numbers is decided by the SemVer parser (a label followed by a number is only recognised for numbers)
+    core.borrow(F, rep, "c08", "C08", "R07.4", ("R08.5:lossy-arithmetic", "R08.5:length-bound", "R08.5:narrowing-parse", "R08.5:numeric-classification"), "every identifier a u64 can hold is classified as a number, and no other")
     # also the converters themselves
     conv = [f for p, f in F.fns.items() if any(x in p for x in ("semver::to_zerv", "pep440::to_zerv", "semver::from_zerv", "pep440::from_zerv")) and "::tests" not in p]
     for g in conv:
@@ -183,6 +187,55 @@ def check(F, rep, tier):
         reach = cg.closure([f.path])
         if tgt and tgt <= reach: rep.ok("R07.6", "%s converts through From<SemVer>/From<PEP440> for Zerv" % nm, nontrivial_key=nm)
         else: rep.bad("R07.6", "other-conversion:" + nm, "%s does not reach both From<SemVer> and From<PEP440> for Zerv" % nm, f.where())
+    # ---- R07.8 a version is read in the format that was asked for; auto-detection prefers SemVer -------------------------------------
+    if rr is not None:
+        try:
+            ri = mir.inlined(F, rr, depth=3, keep=("parse_with_format", "from_str", "parse_auto_detect", "format_output", "validate"))
+            nparse = 0
+            for bi, t in ri.calls():
+                c = mir.callee(t) or ""
+                last = c.rsplit("::", 1)[-1]
+                if not (c.endswith("VersionObject::parse_with_format") or c.endswith("VersionObject::parse_auto_detect") or (last == "from_str" and ("SemVer" in c or "PEP440" in c))): continue
+                nparse += 1
+                site = "%s bb%d line %s" % (ri.where(), bi, ri.blocks[bi]["line"])
+                if not c.endswith("parse_with_format"):
+                    rep.bad("R07.8", "render-format:bypass:" + last, "render parses its argument with %s instead of parse_with_format(version, input_format): the requested input format is not what decides how the text is read" % last, site); continue
+                os_ = mir.trace_op(ri, t[2][1]) if len(t[2]) > 1 else []
+                if os_ and all(o.kind == "param" and "input_format" in [str(x) for x in o.fields()] for o in os_):
+                    rep.ok("R07.8", "render parses the version with the requested input format", sample=site, nontrivial_key="rf%d" % nparse)
+                elif os_ and any(o.kind == "const" for o in os_):
+                    rep.bad("R07.8", "render-format:substituted", "render (also) parses its argument with a fixed format instead of the requested one: text that is not a version of the requested format is read as something else instead of being rejected", site)
+                else:
+                    rep.undecided("R07.8", "render-format:unknown-origin", "cannot relate the format argument to args.input_format", site)
+            rep.floor("R07.8", "version parses in run_render", nparse, 1)
+        except mir.TooManyPaths:
+            rep.undecided("R07.8", "render-format:too-many-paths", "run_render", rr.where())
+    pad = F.fn("crate::version::version_object::VersionObject::parse_auto_detect")
+    if rep.anchor("R07.8", "VersionObject::parse_auto_detect", pad):
+        rep.fn_seen(pad)
+        try:
+            pi = mir.inlined(F, pad, depth=2, keep=("from_str",))
+            nsem = 0; wrong = None
+            for sp in mir.sym_paths(pi, limit=20000):
+                first = None
+                for d, tr, b in sp.facts():
+                    if d[0] == "discr" and isinstance(d[1], tuple) and d[1][0] == "call" and "SemVer" in str(d[1][1]) and str(d[1][1]).endswith("from_str") and isinstance(tr, tuple):
+                        first = (tr[0] == "eq" and 0 in tr[1]) or (tr[0] == "ne" and 0 not in tr[1] and 1 in tr[1]); break
+                if not first: continue
+                nsem += 1
+                r = sp.ret()
+                ok_sem = r[0] == "agg" and str(r[1]).endswith("Result::Ok") and r[2] and r[2][0][1][0] == "agg" and str(r[2][0][1][1]).endswith("VersionObject::SemVer")
+                other = r[0] == "agg" and (str(r[1]).endswith("Result::Err") or (str(r[1]).endswith("Result::Ok") and r[2] and r[2][0][1][0] == "agg" and "VersionObject::" in str(r[2][0][1][1])))
+                if not ok_sem and other: wrong = mir.show(r)[:120]
+                elif not ok_sem: wrong = wrong or "?"
+            if wrong and wrong != "?":
+                rep.bad("R07.8", "auto-detect:semver-not-preferred", "auto-detection returns %s for text that parses as SemVer: a SemVer rendering read back with the default input format becomes a different version" % wrong, pad.where())
+            elif wrong or not nsem:
+                rep.undecided("R07.8", "auto-detect:unrecognised-shape", "cannot follow what auto-detection returns when the SemVer parser accepts", pad.where())
+            else:
+                rep.ok("R07.8", "auto-detection returns the SemVer reading whenever the SemVer parser accepts (%d paths)" % nsem, nontrivial_key="autodetect")
+        except mir.TooManyPaths:
+            rep.undecided("R07.8", "auto-detect:too-many-paths", "parse_auto_detect", pad.where())
     import tables as _t
     _t.sanitizer_presets(F, rep, "R07.7", ("semver_str", "pep440_local_str", "uint", "key"))
     return core.finish(rep, explanation=EXPL, assumptions=ASSUME, trusted=TRUST)
